@@ -17,7 +17,7 @@ ASSUMPTIONS = ["ownership of a kind = the package that defines its entity class 
                "iq results/errors are exercised through C08's request/reply path; encryption-specific stanzas through C03",
                "with the encryption layers present outgoing messages are judged at the probe below the protocol group"]
 REQUIRED = ["outgoing_cases", "incoming_cases", "expected_one_observed_one", "expected_zero_observed_zero", "selections", "kinds_outgoing", "kinds_incoming",
-            "with_enc", "without_enc", "send_handlers_seen", "direction_switches", "reply_cases", "reply_one_entity", "reply_with_others_outstanding", "reply:error", "reply:result"]
+            "with_enc", "without_enc", "send_handlers_seen", "direction_switches", "reply_inside_send_cases", "reply_cases", "reply_one_entity", "reply_with_others_outstanding", "reply:error", "reply:result"]
 TIMEOUT = {"quick": 600, "thorough": 7200}
 
 INCOMING_FIXTURES = ["message_text", "message_media_contact", "message_media_downloadable_audio", "message_media_downloadable_image",
@@ -216,10 +216,35 @@ def reply_rounds(acc, kit, sel, enc, sname, seed, rounds):
             if owner is not None and not sel[owner]:
                 continue            # (absent module: covered by the outgoing cases, nothing leaves)
             kit.clear()
+            fast = r.random() < 0.25
+            got_fast = []
+            if fast:
+                # a fast round trip: the reply is read (by the network thread) while the sender has not yet returned from its send
+                typ_f = r.choice(["result", "error"])
+
+                def on_send(node, name=name, typ_f=typ_f):
+                    kit.bottom.on_send = None
+                    st_f = c08.reply(r, name, treeeq.to_tuple(node), typ_f)
+                    n0 = len(kit.top.received)
+                    kit.inject(st_f)
+                    got_fast.append((st_f, len(kit.top.received) - n0))
+                if not enc:
+                    kit.bottom.on_send = on_send
+                else:
+                    fast = False
             try:
                 kit.send(ent)
             except Exception as e:  # noqa
+                kit.bottom.on_send = None
                 acc.violation("request-raises:%s:%s" % (name, type(e).__name__), "sending a %s request raised %r" % (name, e), {"dir": "request", "kind": name, "selection": sname, "enc": enc})
+                continue
+            kit.bottom.on_send = None
+            if fast and got_fast:
+                acc.count("reply_inside_send_cases")
+                st_f, n_f = got_fast[0]
+                if n_f != 1:
+                    acc.violation("reply-inside-send:%s:%d-for-1" % (name, n_f), "a %s reply that arrives before the sender has returned from sending its %s request produced %d entities at the application side"
+                                  % (st_f[1]["type"], name, n_f), {"dir": "reply-inside-send", "kind": name, "selection": sname, "enc": enc, "round": rd})
                 continue
             if len(kit.mid.sent) != 1:
                 continue            # judged by the outgoing cases
